@@ -296,4 +296,68 @@ theorem lindiv_core (P : X86Params) (hP : IsLvl P) (Ta Tb sa sb pA nA pB nB t dn
       rw [e1]
       rcases hP with rfl | rfl | rfl <;> lvl_unfold <;> omega
 
+
+/-- one operand of `lindiv31abs`: conditional `(n+1)`-limb negation, limb product and correction word -/
+theorem lindiv_operand (P : X86Params) (hP : IsLvl P) (a f : Nat) (ha : a < 2 ^ (64 * P.n - 1))
+    (hf : abs64 f ≤ 2 ^ 31) :
+    let a' := if sgnw f = 0 then a % P.R else (P.R * 2 ^ 64 - a % P.R) % (P.R * 2 ^ 64)
+    (a' % P.R) * abs64 f + (if sgnw f = 0 then 0 else a * abs64 f) =
+      P.R * (a' / P.R &&& abs64 f) + (if sgnw f = 0 then a * abs64 f else 0) ∧
+    (a' / P.R &&& abs64 f) ≤ 2 ^ 31 := by
+  intro a'
+  have haR : a < P.R := by rcases hP with rfl | rfl | rfl <;> lvl_unfold <;> omega
+  have hf64 : abs64 f < 2 ^ 64 := by omega
+  by_cases hs : sgnw f = 0
+  · have e1 : a' = a := by show (if sgnw f = 0 then _ else _) = a; rw [if_pos hs, Nat.mod_eq_of_lt haR]
+    rw [e1, Nat.mod_eq_of_lt haR, Nat.div_eq_of_lt haR, Nat.zero_and, if_pos hs, if_pos hs]
+    omega
+  · rw [if_neg hs, if_neg hs]
+    have e0 : a' = (P.R * 2 ^ 64 - a) % (P.R * 2 ^ 64) := by
+      show (if sgnw f = 0 then _ else _) = _; rw [if_neg hs, Nat.mod_eq_of_lt haR]
+    by_cases ha0 : a = 0
+    · subst ha0
+      have e1 : a' = 0 := by rw [e0, Nat.sub_zero, Nat.mod_self]
+      rw [e1]; simp
+    · have e1 : a' % P.R = P.R - a ∧ a' / P.R = 2 ^ 64 - 1 := by
+        rw [e0]
+        rcases hP with rfl | rfl | rfl <;> lvl_unfold <;> omega
+      rw [e1.1, e1.2, ones_and _ hf64, Nat.sub_mul]
+      have : a * abs64 f ≤ P.R * abs64 f := Nat.mul_le_mul_right _ (Nat.le_of_lt haR)
+      omega
+
+/-- `lindiv31abs`: exact value `|⌊(a·f + b·g)/2^31⌋|` and sign mask, for `|f|, |g| ≤ 2^31`
+    (`f`, `g` uint64_t read as signed) and `a, b < 2^(64n−1)`.  With `pos`/`neg` the sums of the
+    non-negative / negative products, `Z = pos − neg`:
+    `Z ≥ 0`: mask 0, value `⌊Z/2^31⌋`;  `Z < 0`: mask all-ones, value `⌈|Z|/2^31⌉ = |⌊Z/2^31⌋|`. -/
+theorem lindiv31abs_spec (P : X86Params) (hP : IsLvl P) (a b f g : Nat)
+    (ha : a < 2 ^ (64 * P.n - 1)) (hb : b < 2 ^ (64 * P.n - 1))
+    (hf : abs64 f ≤ 2 ^ 31) (hg : abs64 g ≤ 2 ^ 31) :
+    let pos := (if sgnw f = 0 then a * abs64 f else 0) + (if sgnw g = 0 then b * abs64 g else 0)
+    let neg := (if sgnw f = 0 then 0 else a * abs64 f) + (if sgnw g = 0 then 0 else b * abs64 g)
+    (neg ≤ pos → (lindiv31abs P a b f g).2 = 0 ∧ (lindiv31abs P a b f g).1 = (pos - neg) / 2 ^ 31) ∧
+    (pos < neg → (lindiv31abs P a b f g).2 = 2 ^ 64 - 1 ∧
+      (lindiv31abs P a b f g).1 = (neg - pos + (2 ^ 31 - 1)) / 2 ^ 31) := by
+  intro pos neg
+  obtain ⟨h1, hsa⟩ := lindiv_operand P hP a f ha hf
+  obtain ⟨h2, hsb⟩ := lindiv_operand P hP b g hb hg
+  have hbnd : ∀ (c : Nat) (k : Nat), c < 2 ^ (64 * P.n - 1) → k ≤ 2 ^ 31 →
+      c * k ≤ (2 ^ (64 * P.n - 1) - 1) * 2 ^ 31 := fun c k hc hk => Nat.mul_le_mul (by omega) hk
+  have hA := hbnd a (abs64 f) ha hf
+  have hB := hbnd b (abs64 g) hb hg
+  have core := lindiv_core P hP _ _ _ _ (if sgnw f = 0 then a * abs64 f else 0)
+    (if sgnw f = 0 then 0 else a * abs64 f) (if sgnw g = 0 then b * abs64 g else 0)
+    (if sgnw g = 0 then 0 else b * abs64 g) _ _ _ h1 h2 hsa hsb
+    (by split <;> omega) (by split <;> omega) (by split <;> omega) (by split <;> omega) rfl rfl rfl
+  unfold lindiv31abs
+  simp only
+  constructor
+  · intro hle
+    obtain ⟨c1, c2⟩ := core.1 hle
+    refine ⟨c1, ?_⟩
+    rw [if_pos c1]; exact c2
+  · intro hlt
+    obtain ⟨c1, c2⟩ := core.2 hlt
+    refine ⟨c1, ?_⟩
+    rw [if_neg (by rw [c1]; decide)]; exact c2
+
 end SqiProofs.GfX86
